@@ -19,7 +19,7 @@ TRUSTED_BASE = [
 LEVEL = ("Coq theorems (Props/C13.v), generic in the amount type and in both quantity instances: constructors report exactly their four components, reciprocal swaps them and is an involution "
          "(Leibniz), rate*value and value*rate are the SAME term term*((value/(1 per-unit))/per-multiple) in the term unit, value/rate is per-multiple*((value/(1 term-unit))/term-amount) in the per unit, "
          "and value/reciprocal(rate) is literally rate*value. Re-translated from src/rate.rs and the macro templates on every run. "
-         "The rounding half (Props/AccuracyRate.v): after the dimensionless ratio value/(1 unit) of C03 (exactly the amount when the value already has that unit: ACC_C13_ratio_same_unit, DEC_C13_ratio_same_unit) the result is term*(ratio/per) with two further roundings - binary64: factors (1+d1)(1+d2), |d| <= 2^-53, in the normal range (from Flocq); decimal: within 5e-19(|term|+1) whenever the operation returns - same for value/rate. The inverse-pair clause is a theorem for binary64 with the value given in the per unit: (rate*v)/rate = v up to four rounding factors (ACC_C13_mul_then_div); other unit combinations and the decimal inverse pair are judged numerically on the implementation (exact-rational formula; testing, supporting).")
+         "The rounding half (Props/AccuracyRate.v): after the dimensionless ratio value/(1 unit) of C03 (exactly the amount when the value already has that unit: ACC_C13_ratio_same_unit, DEC_C13_ratio_same_unit) the result is term*(ratio/per) with two further roundings - binary64: factors (1+d1)(1+d2), |d| <= 2^-53, in the normal range (from Flocq); decimal: within 5e-19(|term|+1) whenever the operation returns - same for value/rate. The inverse-pair clause is a theorem for binary64 with the value given in the per unit: (rate*v)/rate = v up to four rounding factors (ACC_C13_mul_then_div), and in the decimal configuration within 5e-19 ((|p|+1) + |p|/|t| (|t|+1)) (DEC_C13_mul_then_div); other unit combinations are judged numerically on the implementation (exact-rational formula; testing, supporting).")
 LEVEL_NOTE = "Trusted: Coq kernel, translator rs2j+j2v, Macro/Inst.v wiring, hand models of binary64 (Flocq) / fpdec; no axioms in the structural theorems, the accuracy theorems rest on Flocq and the stdlib real-number axioms."
 ASSUMPTIONS = [
     "Rust evaluates the rate expressions left to right as the translated monadic terms (validated by the correspondence run)",
